@@ -92,18 +92,18 @@ def rfc7951Kind : String → String
   | "LY_TYPE_UNION" => "union"                                                                                       -- 6.10 as the member type
   | _ => "error"                                   -- leafref is never a real type of a stored value; unknown
 
-/-- `json_print_value`: the base-type switch read off the C source by the translator IS the RFC 7951 table — 64-bit integers and
-    decimal64 as strings, the other numbers and booleans as literals, `empty` as `[null]`, a union as its member type. -/
+/-- `json_print_value`: every row of the base-type switch read off the C source by the translator (the GENERATED table
+    `Generated.jsonTyping`) agrees with the RFC 7951 table — 64-bit integers and decimal64 as strings, the other numbers and
+    booleans as literals, `empty` as `[null]`, a union as its member type.  This is a statement about the rows that are there: by
+    itself it is true of an empty or a partial table (an extractor that finds no `case` label).  That each of the 18 base types
+    of RFC 7951 sec. 6 (and the two error cases) has exactly one row is `json_typing_covers_rfc7951` below; the claim "the
+    switch IS the RFC 7951 table" is the PAIR of the two theorems. -/
 theorem json_typing_rfc7951 : ∀ e ∈ Generated.jsonTyping, e.2.2 = rfc7951Kind e.2.1 := by decide
 
--- AUDIT: `json_typing_rfc7951` quantifies over the rows of a GENERATED table: it is true of an empty or a partial table
--- (an extractor that finds no `case` label), so by itself it says "every row found agrees with RFC 7951", not "the switch IS
--- the table" as the docstring has it.  Minimal repair: add the converse inclusion — every base type RFC 7951 sec. 6 speaks
--- about has a row (and no type has two rows).  Proved below as `json_typing_covers_rfc7951`; with it a lost row breaks the
--- build instead of weakening the claim silently.
-
-/-- the converse: each of the 18 base types of RFC 7951 sec. 6 (and the two that must be errors: unknown, leafref) has exactly
-    one row in the table read off the source -/
+-- AUDIT (resolved): docstring of `json_typing_rfc7951` says "every row found agrees"; with `json_typing_covers_rfc7951` the pair is the claim.
+/-- the converse of `json_typing_rfc7951`: each of the 18 base types of RFC 7951 sec. 6 (and the two that must be errors: unknown,
+    leafref) has exactly one row in the table read off the source, and the table has no other rows; with it a lost row breaks the
+    build instead of weakening `json_typing_rfc7951` silently -/
 theorem json_typing_covers_rfc7951 :
     (∀ n ∈ ["LY_TYPE_BINARY", "LY_TYPE_UINT8", "LY_TYPE_UINT16", "LY_TYPE_UINT32", "LY_TYPE_UINT64", "LY_TYPE_STRING",
             "LY_TYPE_BITS", "LY_TYPE_BOOL", "LY_TYPE_DEC64", "LY_TYPE_EMPTY", "LY_TYPE_ENUM", "LY_TYPE_IDENT", "LY_TYPE_INST",
